@@ -218,7 +218,8 @@ func checkBasic(c *vrun.Ctx, rng *rand.Rand, bc *basicCase, exp map[int]tla.Valu
 		}
 		replay["spent_scripts"] = sp
 		c.Distinct(fmt.Sprintf("basic/%s", bc.chain.At(k+1).String()))
-		if k == 0 && len(bc.blocks) == 1 && len(bb.elems) == 2 && len(bb.spent) == 1 {
+		if k == 0 && len(bc.blocks) == 1 && len(bb.elems) == 2 && len(bb.spent) == 1 && st.get("sampled") == 0 {
+			st.add("sampled")
 			c.Sample(map[string]any{"kind": "basic-filter", "block": bc.chain.At(1).String(), "spec_elements": bb.elems, "spec_excluded": bb.ex.F("excluded").Strs(),
 				"spec_filter": fmt.Sprintf("%x", nbytes[k]), "header_term": bb.ex.F("header").String()})
 		}
